@@ -1,0 +1,18 @@
+//go:build verif
+
+// Package simhook provides cooperative scheduler yield points for the
+// deterministic simulator of the verification framework. It is only active
+// when the module is built with the `verif` build tag; otherwise Yield is an
+// empty function that the compiler inlines away.
+package simhook
+
+// Hook, when non-nil, is called at every yield point with the name of the point.
+// It must be set before any goroutine that may reach a yield point is started.
+var Hook func(point string)
+
+// Yield marks a point at which a simulated scheduler may suspend the caller.
+func Yield(point string) {
+	if h := Hook; h != nil {
+		h(point)
+	}
+}
